@@ -77,7 +77,7 @@ type Sched struct {
 }
 
 func NewSched() *Sched {
-	s := &Sched{byGoid: map[uint64]*Task{}, events: make(chan schedEvent, 64), dead: map[string]bool{}, Watchdog: 30 * time.Second}
+	s := &Sched{byGoid: map[uint64]*Task{}, events: make(chan schedEvent, 64), dead: map[string]bool{}, Watchdog: 120 * time.Second}
 	return s
 }
 
@@ -371,15 +371,23 @@ func (s *Sched) settleBlocked(tasks []*Task) bool {
 func (s *Sched) wait(t *Task) string {
 	timer := time.NewTimer(s.Watchdog)
 	defer timer.Stop()
+	// Looking at the goroutine stops the world; on a loaded machine frequent
+	// looks starve the very task they wait for, so the interval backs off.
 	var poll <-chan time.Time
+	interval := 400 * time.Microsecond
+	var pt *time.Timer
 	if s.DetectBlocked {
-		tk := time.NewTicker(400 * time.Microsecond)
-		defer tk.Stop()
-		poll = tk.C
+		pt = time.NewTimer(interval)
+		defer pt.Stop()
+		poll = pt.C
 	}
 	for {
 		select {
 		case <-poll:
+			if interval < 50*time.Millisecond {
+				interval = interval * 3 / 2
+			}
+			pt.Reset(interval)
 			if s.stablyBlocked(t) {
 				s.mu.Lock()
 				if t.state == tRunning {
@@ -577,6 +585,12 @@ func (s *Sched) InterleaveBlocking(tasks []*Task, choices []int) string {
 		s.mu.Unlock()
 		if len(run) == 0 {
 			if blocked > 0 {
+				// Every unfinished task waits. Before that is called a deadlock it
+				// has to last: a wait for a goroutine that is not a task (connection
+				// pool, a starved helper on a loaded machine) ends by itself.
+				if s.waitForProgress(tasks, 3*time.Second) {
+					continue
+				}
 				return "deadlock"
 			}
 			return "done"
@@ -600,6 +614,47 @@ func (s *Sched) InterleaveBlocking(tasks []*Task, choices []int) string {
 			return k
 		}
 	}
+}
+
+// waitForProgress: true as soon as one of the blocked tasks has parked or
+// finished by itself, false if all of them are still blocked after d.
+func (s *Sched) waitForProgress(tasks []*Task, d time.Duration) bool {
+	deadline := time.Now().Add(d)
+	count := func() (parked, blocked int) {
+		s.mu.Lock()
+		defer s.mu.Unlock()
+		for _, t := range tasks {
+			switch t.state {
+			case tParked:
+				parked++
+			case tBlocked:
+				blocked++
+			}
+		}
+		return
+	}
+	_, blocked0 := count()
+	for time.Now().Before(deadline) {
+		parked, blocked := count()
+		moved := parked > 0 || blocked < blocked0
+		if moved {
+			return true
+		}
+		for _, t := range tasks {
+			s.mu.Lock()
+			st := t.state
+			s.mu.Unlock()
+			if st != tBlocked {
+				continue
+			}
+			if ws, _ := goroutineWaitState(t.goid); !isBlockedState(ws) {
+				// it is on its way: let it reach its next point
+				time.Sleep(200 * time.Microsecond)
+			}
+		}
+		time.Sleep(2 * time.Millisecond)
+	}
+	return false
 }
 
 func (s *Sched) TraceString() string { return strings.Join(s.Trace, " ") }
